@@ -164,3 +164,119 @@ Example C15_q_run_nonvacuous :
   max_freq [[1%Q; 0%Q]; [0%Q; 2%Q]] [[0%Q; 0%Q]; [1%Q; 0%Q]] (1 # 2)%Q = [1%Q; (1 # 2)%Q] /\
   [[1; 0]; [0; 2]]%R <> [] /\ (0 < length (nth 0 [[1; 0]; [0; 2]]%R []))%nat.
 Proof. cbv zeta. repeat split; try (vm_compute; reflexivity); [discriminate|cbn; lia]. Qed.
+
+(** ** SOURCE-TEXT TIE.  gen/Gen_c15.v is re-translated from eqsig/stockwell.py on every run of the check by the fail-closed
+    translator translator/py2coq_c15.py (one definition per function: generate_gaussian, transform, transform_w_scipy_fft,
+    itransform, get_max_tifq_vals_freq, get_max_stockwell_freq; temporaries substituted).  The theorems below say that the
+    generated text IS the model the theorems above are about, for ALL inputs, so a changed operand / index / sign / literal /
+    slice bound in one of those statements changes the generated text and breaks a proof obligation of this file.
+    NOT translated (they are parameters of the generated definitions): np.fft.fft / np.fft.ifft and scipy.fftpack.fft / ifft
+    (instantiated with the array-level reading [model_fft_*], [model_ifft_*] of the defining sums of lib/Dft.v), np.exp (exp),
+    np.pi (PI), the modulus inside abs() (sqrt), the float expression of `npts` (the real expression 1 - up(-2^(ln n/ln 2)), or
+    ANY integer >= n in the generic theorem).  The readings of the NumPy / SciPy array statements themselves (lib/NpMat.v,
+    lib/NpArr.v: toeplitz, transpose, outer, slices, set_slice, sum_axis1, argmax_axis0) are trusted definitions; that NumPy
+    and SciPy behave as these readings and the transforms as the sums is what the correspondence check measures.
+    Binary64 rounding is not modelled (in particular `npts` is read in exact arithmetic; the generic theorem covers a float
+    evaluation that lands on n + 1).  The `interp` parameter of the two transforms is unused by the source (any use makes the
+    translator fail); `overwrite_x=True` of the SciPy call concerns the caller's array, not the returned value.
+    Guards: a record of at least 2 samples (np.fft.fft(acc, 0) raises below that); a complex matrix with at least one row. *)
+From EQ Require Import lib.PyVal lib.NpArr lib.NpMat gen.Gen_c06 proofs.P_gen_c06 gen.Gen_c15 proofs.P_gen_c15.
+
+(** generate_gaussian(n_d2): row k - 1, column j is the model's window exp(-2 pi^2 m^2 / k^2) at the signed index m = sidx j
+    (f_half = arange(0, n_d2 + 1) / (2 n_d2), f = concatenate(f_half, flipud(-f_half[1:-1])), p = 2 pi outer(f, 1 / f_half[1:]),
+    exp(-p^2 / 2) transposed) *)
+Theorem C15_gaussian_is_source : forall n2 : nat, (1 <= n2)%nat ->
+  gen_generate_gaussian exp PI (Z.of_nat n2)
+  = map (fun i => map (fun j => Rgauss (Z.of_nat i + 1) (sidx n2 (Z.of_nat j))) (seq 0 (2 * n2))) (seq 0 n2).
+Proof. exact P_gen_c15.gen_gaussian_R. Qed.
+Theorem C15_gaussian_cell_is_source : forall n2 k j : nat, (1 <= k <= n2)%nat -> (j < 2 * n2)%nat ->
+  nth j (nth (k - 1) (gen_generate_gaussian exp PI (Z.of_nat n2)) []) 0 = Rgauss (Z.of_nat k) (sidx n2 (Z.of_nat j)).
+Proof. exact P_gen_c15.gen_gaussian_R_nth. Qed.
+
+(** transform(acc): n_d2 = int(len(acc) / 2), fa = fft(acc, 2 n_d2), toeplitz(conj(fa[:n_d2 + 1]), fa)[1:n_d2 + 1, :] times
+    the window, ifft along the rows, flipud.  Generic in the number type (the structure needs no arithmetic law), given that
+    the generated window is the model's; at R the window hypothesis is C15_gaussian_is_source. *)
+Theorem C15_transform_is_source_generic : forall (T : Type) (ops : NumOps T) (twc tws gau : Z -> Z -> T) (exp_ : T -> T) (pi_ : T)
+  (a : list T), (1 <= half_len a)%nat ->
+  gen_generate_gaussian exp_ pi_ (Z.of_nat (half_len a))
+  = map (fun i => map (fun j => gau (Z.of_nat i + 1)%Z (sidx (half_len a) (Z.of_nat j))) (seq 0 (2 * half_len a))) (seq 0 (half_len a)) ->
+  gen_transform (model_fft_re twc) (model_fft_im tws) (model_ifft_re twc tws) (model_ifft_im twc tws) exp_ pi_ a
+  = (st_re twc tws gau a, st_im twc tws gau a).
+Proof. exact (@P_gen_c15.gen_transform_eq). Qed.
+Theorem C15_transform_is_source : forall a : list R, (1 <= half_len a)%nat ->
+  gen_transform (model_fft_re Rtwc) (model_fft_im Rtws) (model_ifft_re Rtwc Rtws) (model_ifft_im Rtwc Rtws) exp PI a = transform_R a.
+Proof. exact P_gen_c15.gen_transform_R. Qed.
+
+(** transform_w_scipy_fft(acc): the same statements with scipy.fftpack.fft / ifft in the place of np.fft.fft / ifft (the
+    first theorem is an identity of generated TEXTS: any difference between the two bodies breaks it) *)
+Theorem C15_transform_w_scipy_fft_same_text : forall (T : Type) (ops : NumOps T) (fr fi : option Z -> list T -> list T)
+  (ir ii : list T -> list T -> list T) (exp_ : T -> T) (pi_ : T) (a : list T),
+  gen_transform_w_scipy_fft fr fi ir ii exp_ pi_ a = gen_transform fr fi ir ii exp_ pi_ a.
+Proof. exact (@P_gen_c15.gen_transform_scipy_eq). Qed.
+Theorem C15_transform_w_scipy_fft_is_source : forall a : list R, (1 <= half_len a)%nat ->
+  gen_transform_w_scipy_fft (model_fft_re Rtwc) (model_fft_im Rtws) (model_ifft_re Rtwc Rtws) (model_ifft_im Rtwc Rtws) exp PI a
+  = transform_w_scipy_fft_R a.
+Proof. exact P_gen_c15.gen_transform_scipy_R. Qed.
+
+(** itransform(stock): ss = sum(stock, axis=1), n = 2 len(ss), zeros(n), the two slice assignments (flip(conj(ss[1:])) and
+    ss[1:]), ifft, real([:npts]).  Generic in the number type and in the reading [cpl] of the float expression
+    int(ceil(2 ** (log(n) / log(2)))), as long as it is at least n; in exact (real) arithmetic it is n. *)
+Theorem C15_itransform_is_source_generic : forall (T : Type) (ops : NumOps T) (twc tws : Z -> Z -> T) (cpl : Z -> Z -> Z -> Z)
+  (re im : list (list T)), re <> [] -> length im = length re ->
+  (2 * Z.of_nat (length re) <= cpl 2 (2 * Z.of_nat (length re)) 2)%Z ->
+  gen_itransform (model_ifft_re twc tws) cpl re im = ist twc tws re im.
+Proof. exact (@P_gen_c15.gen_itransform_eq). Qed.
+Theorem C15_npts_is_source : forall n : Z, (1 <= n)%Z -> (1 - up (- Rpower (IZR 2) (ln (IZR n) / ln (IZR 2))))%Z = n.
+Proof. exact P_gen_c15.R_cpl_pow2. Qed.
+Theorem C15_itransform_is_source : forall re im : list (list R), re <> [] -> length im = length re ->
+  gen_itransform (model_ifft_re Rtwc Rtws) (fun a b c => (1 - up (- Rpower (IZR a) (ln (IZR b) / ln (IZR c))))%Z) re im = ist_R re im.
+Proof. exact P_gen_c15.gen_itransform_R. Qed.
+
+(** get_max_tifq_vals_freq(tifq_values, dt): points = len, freqs = flipud(arange(1, points + 1) / (2 points dt)) is the
+    model's axis (generic); argmax(abs(.), axis=0) and take give the model's trace (R: |z| is monotone in |z|^2).
+    Guards: at least one row; real and imaginary parts rectangular of the same shape. *)
+Theorem C15_freq_axis_is_source : forall (T : Type) (ops : NumOps T) (sqrt_ : T -> T) (re im : list (list T)) (dt : T),
+  gen_get_max_tifq_vals_freq sqrt_ re im dt
+  = take n0 (st_freqs (length re) dt) (argmax_axis0 (mmap2 (fun x y => sqrt_ (x * x + y * y)%num) re im)).
+Proof. exact (@P_gen_c15.gen_tifq_shape). Qed.
+Theorem C15_max_tifq_is_source : forall (re im : list (list R)) (dt : R), re <> [] -> length im = length re ->
+  Forall (fun r => length r = length (nth 0 re [])) re -> Forall (fun r => length r = length (nth 0 re [])) im ->
+  gen_get_max_tifq_vals_freq sqrt re im dt = max_freq re im dt.
+Proof. exact P_gen_c15.gen_tifq_R. Qed.
+
+(** get_max_stockwell_freq(asig): `if not hasattr(asig, "swtf"): asig.swtf = transform(asig.values)`, then the statements of
+    get_max_tifq_vals_freq on asig.swtf with asig.dt.  With a cached transform c it is the trace of c; without one it is the
+    trace of the record's own transform, the model's max_stockwell_freq_R. *)
+Theorem C15_max_stockwell_cached_is_source : forall (T : Type) (ops : NumOps T) fr fi ir ii (exp_ sqrt_ : T -> T) (pi_ dt : T)
+  (a : list T) (c : list (list T) * list (list T)),
+  gen_get_max_stockwell_freq fr fi ir ii exp_ sqrt_ pi_ (Some c) dt a = gen_get_max_tifq_vals_freq sqrt_ (fst c) (snd c) dt.
+Proof. intros. reflexivity. Qed.
+Theorem C15_max_stockwell_is_source : forall (a : list R) (dt : R), (1 <= half_len a)%nat ->
+  gen_get_max_stockwell_freq (model_fft_re Rtwc) (model_fft_im Rtws) (model_ifft_re Rtwc Rtws) (model_ifft_im Rtwc Rtws)
+    exp sqrt PI None dt a = max_stockwell_freq_R a dt.
+Proof. exact P_gen_c15.gen_max_stockwell_R. Qed.
+
+(** what the source computes for itransform(transform(x)), through C15_inverse: N samples, sample n = x_n - mean - Nyquist *)
+Theorem C15_source_inverse : forall a : list R, (1 <= half_len a)%nat ->
+  let s := gen_transform (model_fft_re Rtwc) (model_fft_im Rtws) (model_ifft_re Rtwc Rtws) (model_ifft_im Rtwc Rtws) exp PI a in
+  let y := gen_itransform (model_ifft_re Rtwc Rtws) (fun a b c => (1 - up (- Rpower (IZR a) (ln (IZR b) / ln (IZR c))))%Z) (fst s) (snd s) in
+  let N := (2 * half_len a)%nat in
+  length y = N /\
+  forall n, (n < N)%nat ->
+    nth n y 0 = nth n a 0 - rsum (fun j => nth j a 0) N / INR N - (-1) ^ n * (rsum (fun j => nth j a 0 * (-1) ^ j) N / INR N).
+Proof.
+  intros a Hn. cbv zeta. change (fun a b c : Z => (1 - up (- Rpower (IZR a) (ln (IZR b) / ln (IZR c))))%Z) with P_gen_c15.R_cpl.
+  rewrite (P_gen_c15.source_roundtrip a Hn). exact (C15_inverse a Hn).
+Qed.
+
+(** non-vacuity of the guards of the source theorems: a 2 x 2 complex matrix is non-empty and rectangular; a 5-sample record
+    has half length 2; the generated window of a 4-point transform has Rgauss 1 (-1) in row 0, column 3 *)
+Example C15_source_nonvacuous :
+  let re := [[1; 0]; [0; 2]] in let im := [[0; 0]; [1; 0]] in
+  re <> [] /\ length im = length re /\ Forall (fun r => length r = length (nth 0 re [])) re /\
+  Forall (fun r => length r = length (nth 0 re [])) im /\ (1 <= half_len [1; 2; 4; 8; 16])%nat /\
+  nth 3 (nth (1 - 1) (gen_generate_gaussian exp PI (Z.of_nat 2)) []) 0 = Rgauss 1 (-1).
+Proof.
+  cbv zeta. split; [discriminate|]. split; [reflexivity|]. split; [repeat constructor|]. split; [repeat constructor|].
+  split; [cbn; lia|]. exact (C15_gaussian_cell_is_source 2 1 3 ltac:(lia) ltac:(lia)).
+Qed.
